@@ -7,7 +7,7 @@ import math
 from gen import _lg, _r
 
 
-def design(sysstate, rng):
+def design(sysstate, rng, iscale=1.0):
     """sysstate: final TLC state of a SpecBuild behaviour ({comps, par, ...}); returns
     (list of component descriptions in build order with parent references, designed values)"""
     comps = sysstate["comps"]
@@ -69,7 +69,7 @@ def design(sysstate, rng):
             iin[n] = io
             P[n] = dict(vo=vin[n], rs=(abs(vin[n]) - ao) / io if io > 0 else 0.0)
         elif c in ("PLoad", "ILoad", "RLoad"):
-            i = _lg(rng, 1e-5, 0.2)
+            i = _lg(rng, 1e-5, 0.2) * iscale      # iscale: the same design with every current scaled (resistances follow)
             iin[n] = i
             P[n] = {"PLoad": dict(pwr=av * i, rt=rt), "ILoad": dict(ii=i, rt=rt), "RLoad": dict(rs=av / i, rt=rt)}[c]
             if c == "ILoad":
@@ -81,7 +81,7 @@ def design(sysstate, rng):
             iin[n] = io
             P[n] = dict(vdrop=av - ao, rt=rt)
         elif c in ("PSwitch", "PMux"):
-            ig = _r(_lg(rng, 1e-7, 1e-3), 3)
+            ig = _r(_lg(rng, 1e-7, 1e-3), 3) * iscale
             iin[n] = io + ig
             P[n] = dict(rs=(av - ao) / io if io > 0 else _r(_lg(rng, 1e-3, 1), 3), ig=ig, rt=rt)
         elif c == "Rectifier":
@@ -89,15 +89,15 @@ def design(sysstate, rng):
                 iin[n] = io
                 P[n] = dict(vdrop=(av - ao) / 2, rt=rt)
             else:
-                ig, iq = _r(_lg(rng, 1e-7, 1e-3), 3), _r(_lg(rng, 1e-7, 1e-4), 3)
+                ig, iq = _r(_lg(rng, 1e-7, 1e-3), 3) * iscale, _r(_lg(rng, 1e-7, 1e-4), 3) * iscale
                 iin[n] = io + ig if io > 0 else iq
                 P[n] = dict(rs=(av - ao) / (2 * io) if io > 0 else 0.0, ig=ig, iq=iq, rt=rt)
         elif c == "Converter":
-            eff, iq = _r(rng.uniform(0.6, 0.98), 3), _r(_lg(rng, 1e-6, 1e-3), 3)
+            eff, iq = _r(rng.uniform(0.6, 0.98), 3), _r(_lg(rng, 1e-6, 1e-3), 3) * iscale
             iin[n] = ao * io / (av * eff) if io > 0 else iq
             P[n] = dict(vo=vout[n], eff=eff, iq=iq, rt=rt)
         elif c == "LinReg":
-            ig = _r(_lg(rng, 1e-6, 5e-3), 3)
+            ig = _r(_lg(rng, 1e-6, 5e-3), 3) * iscale
             iin[n] = io + ig
             P[n] = dict(vo=vout[n], vdrop=_r(rng.uniform(0.0, min(0.5, 0.5 * (av - ao), 0.9 * ao)), 3), ig=ig, rt=rt)
     descs = [{"cls": cls[n], "name": n, "params": P[n], "limits": None, "par": par[n],
